@@ -262,8 +262,17 @@ def call_value(engine, st, fv, args, kwargs, node=None, recv_node=None):
                 yield from engine.call_repo(fi, [fv] + list(args), kwargs, st, node)
                 return
         if inner == TAny:
+            # a concrete class object (e.g. an element of BaseExtractor.__subclasses__()): construct that class
+            from .values import _class_ids, class_value
+
+            cv = z3.simplify(fv.t)
+            if z3.is_app(cv) and cv.decl().eq(V.obj) and z3.is_int_value(cv.arg(0)) and cv.arg(0).as_long() < 0:
+                k = -cv.arg(0).as_long()
+                for nm, idn in _class_ids.items():
+                    if idn == k:
+                        yield from construct(engine, st, nm, args, kwargs, node)
+                        return
             # a class object held in a variable (e.g. `cast` in parse_value): dispatch on the builtin classes
-            from .values import class_value
 
             rest = st
             for cname in ("str", "bool", "int"):
